@@ -693,7 +693,7 @@ func ruleP16Order(p *Prog, r *Report) {
 			return ""
 		})
 		// the comparison decides every call: no other condition gets to skip it
-		all := len(guardsOf(b)) == 0
+		all := len(guardsOf(b)) == 0 && skippableAt(b, nil) == nil
 		for _, ret := range returnsOf(f) {
 			if !b.Dominates(ret.Block()) {
 				all = false
@@ -788,7 +788,8 @@ func ruleP16Closed(p *Prog, r *Report) {
 		"date":      {"klog.civil2Date": true},
 		"duration":  {"klog.NewDurationWithFormat": true},
 		"timeRange": {"klog.NewRangeWithFormat": true},
-		"openRange": {"klog.NewOpenRangeWithFormat": true},
+		// (openRange is not in the table: its constructor validates nothing — every Time is a
+		// valid start — so building one elsewhere makes nothing representable that was not)
 	}
 	n := 0
 	for _, f := range p.srcFns {
@@ -1180,37 +1181,56 @@ func ruleP16Plus(p *Prog, r *Report) {
 		return
 	}
 	cs := callsTo(f, nt)
-	if len(cs) != 1 {
-		r.bad(rule, "newTime", p.pos(f.Pos()), "Time.Plus does not build its result with exactly one newTime call")
+	if len(cs) == 0 {
+		r.bad(rule, "newTime", p.pos(f.Pos()), "Time.Plus does not build its result with newTime")
 		return
 	}
+	// one call that is handed the selected minute count and shift, or one call per shift
+	type plusRow struct{ mins, shift ssa.Value }
+	var rows []plusRow
 	a := cs[0].Common().Args
-	q, ok1 := strip(a[0]).(*ssa.BinOp)
-	m, ok2 := strip(a[1]).(*ssa.BinOp)
-	good := ok1 && ok2 && q.Op == token.QUO && m.Op == token.REM && sameValue(q.X, m.X)
-	if good {
-		k1, _ := constInt(q.Y)
-		k2, _ := constInt(m.Y)
-		good = k1 == 60 && k2 == 60
-	}
-	r.check(good, rule, "split", p.instrPos(cs[0]), "result = newTime(mins/60, mins%60, shift, own format)", "Time.Plus does not split one and the same minute count into /60 and %60")
-	if !good {
-		return
-	}
-	// mins phi: per shift value the offset is re-based by exactly 1440*shift
-	mins, isPhi := strip(q.X).(*ssa.Phi)
-	shift, isPhi2 := strip(a[2]).(*ssa.Phi)
-	if !isPhi || !isPhi2 || mins.Block() != shift.Block() {
-		r.undecided(rule, "rebase", p.instrPos(cs[0]), "minutes and day shift are not selected together")
-		return
+	for _, c := range cs {
+		ca := c.Common().Args
+		q, ok1 := strip(ca[0]).(*ssa.BinOp)
+		m, ok2 := strip(ca[1]).(*ssa.BinOp)
+		good := ok1 && ok2 && q.Op == token.QUO && m.Op == token.REM && sameValue(q.X, m.X)
+		if good {
+			k1, _ := constInt(q.Y)
+			k2, _ := constInt(m.Y)
+			good = k1 == 60 && k2 == 60
+		}
+		key := "split"
+		if len(cs) > 1 {
+			key = fmt.Sprintf("split@%s", describeConst(ca[2]))
+		}
+		r.check(good, rule, key, p.instrPos(c), "result = newTime(mins/60, mins%60, shift, own format)", "Time.Plus does not split one and the same minute count into /60 and %60")
+		if !good {
+			return
+		}
+		mins, isPhi := strip(q.X).(*ssa.Phi)
+		shift, isPhi2 := strip(ca[2]).(*ssa.Phi)
+		switch {
+		case isPhi && isPhi2 && mins.Block() == shift.Block():
+			for i := range mins.Edges {
+				rows = append(rows, plusRow{mins.Edges[i], shift.Edges[i]})
+			}
+		case !isPhi2:
+			rows = append(rows, plusRow{q.X, ca[2]})
+		default:
+			r.undecided(rule, "rebase", p.instrPos(c), "minutes and day shift are not selected together")
+			return
+		}
+		// format preserved
+		_, fld := fieldLoad(ca[3])
+		r.check(fld == "format", rule, "format", p.instrPos(c), "the time's own format is kept", "Time.Plus does not keep the time's format")
 	}
 	okAll := true
 	var base ssa.Value
-	for i := range mins.Edges {
-		s, isK := constInt(shift.Edges[i])
+	for _, rw := range rows {
+		s, isK := constInt(rw.shift)
 		if !isK {
 			// `shift--` on a variable that holds 0 is 0 - 1 in SSA, not a constant
-			if sp := polyOf(shift.Edges[i]); sp.isConst() {
+			if sp := polyOf(rw.shift); sp.isConst() {
 				s, isK = sp.C, true
 			}
 		}
@@ -1218,7 +1238,7 @@ func ruleP16Plus(p *Prog, r *Report) {
 			okAll = false
 			continue
 		}
-		pl := polyOf(mins.Edges[i])
+		pl := polyOf(rw.mins)
 		if len(pl.Terms) != 1 {
 			okAll = false
 			continue
@@ -1236,6 +1256,16 @@ func ruleP16Plus(p *Prog, r *Report) {
 		if pl.C != -1440*s {
 			okAll = false
 		}
+	}
+	// every shift a sum can need is there: yesterday, today, tomorrow
+	seenShift := map[int64]bool{}
+	for _, rw := range rows {
+		if sp := polyOf(rw.shift); sp.isConst() {
+			seenShift[sp.C] = true
+		}
+	}
+	if !(seenShift[-1] && seenShift[0] && seenShift[1]) {
+		okAll = false
 	}
 	r.check(okAll, rule, "rebase", p.instrPos(cs[0]), "for shift s the minute count is the total offset minus 1440*s", "the minute count and the day shift of Time.Plus do not re-base the offset by exactly one day per shift")
 	// the total offset is MidnightOffset().Plus(d).InMinutes()
@@ -1291,9 +1321,7 @@ func ruleP16Plus(p *Prog, r *Report) {
 		}
 		r.check(!rejectsValid, rule, fmt.Sprintf("bounds:%s%d", bo.Op, k), p.instrPos(iff), "the range test rejects no result between the start of yesterday and the end of tomorrow", fmt.Sprintf("the range test (offset %s %d -> error) rejects a representable result", bo.Op, k))
 	}
-	// format preserved
-	_, fld := fieldLoad(a[3])
-	r.check(fld == "format", rule, "format", p.instrPos(cs[0]), "the time's own format is kept", "Time.Plus does not keep the time's format")
+	_ = a
 }
 
 // reachesOnlyError: every return reachable from b returns a nil first result.
@@ -1322,7 +1350,8 @@ func ruleP16Fold(p *Prog, r *Report) {
 	// what newTime validates as the hour (civil.Time.Hour) and what it stores as the day shift
 	var hv, sv ssa.Value
 	var at ssa.Instruction
-	eachInstr(f, func(in ssa.Instruction) {
+	// (also where the validation sits in a private helper of newTime)
+	eachVInstr(f, func(in ssa.Instruction) {
 		st, ok := in.(*ssa.Store)
 		if !ok {
 			return
